@@ -83,6 +83,8 @@ func TestWorker(t *testing.T) {
 		replay(t, out)
 	case "minimise":
 		minimise(t, out)
+	case "digests":
+		digests(t, prop, out)
 	case "list":
 		for _, w := range registry {
 			fmt.Printf("WORKLOAD %s %s faulty=%v\n", w.Prop, w.Name, w.Faulty)
@@ -305,4 +307,26 @@ func minimise(t *testing.T, outPath string) {
 	o.Config += fmt.Sprintf(" [minimised: %d -> %d tape entries in %d runs]", len(in.Tape), len(o.Tape), runs)
 	writeJSON(outPath, o)
 	_ = strings.TrimSpace
+}
+
+// digests writes one line per run (seed workload digest steps verdict) for
+// the determinism self-test.
+func digests(t *testing.T, prop, outPath string) {
+	wls := WorkloadsFor(prop, os.Getenv("VERIF_WORKLOADS"))
+	seed0 := uint64(envInt("VERIF_SEED0", 1))
+	n := envInt("VERIF_NRUNS", 100)
+	var sb strings.Builder
+	for i := 0; i < n; i++ {
+		seed := seed0 + uint64(i)
+		wl := wls[int(seed%uint64(len(wls)))]
+		o := RunOne(t, wl, seed, nil, false)
+		sigs := ""
+		for _, v := range o.Violations {
+			sigs += v.Sig + ";"
+		}
+		fmt.Fprintf(&sb, "%d %s %s %d %d %s|%s|%s\n", seed, wl.Name, o.Digest, o.Steps, len(o.Tape), o.Inconclusive, sigs, o.HarnessErr)
+	}
+	if err := os.WriteFile(outPath, []byte(sb.String()), 0o644); err != nil {
+		os.Exit(2)
+	}
 }
